@@ -515,6 +515,10 @@ def planted_cases():
         s["properties"][1]["unit"] = "u"
         cases.append({"dest": enc(d), "src": enc(s), "strict": strict, "planted": ["string-with-newline", "", 0, "prop"]})
         d, s = template(), template()
+        s["properties"][1]["values"] = list(d["properties"][1]["values"]) + ["line1\nline2"]     # the first value is not new
+        s["properties"][1]["unit"] = "u"
+        cases.append({"dest": enc(d), "src": enc(s), "strict": strict, "planted": ["string-with-newline-after-known-value", "", 0, "prop"]})
+        d, s = template(), template()
         s["properties"][0]["values"] = [2, 2, 5, 5]
         cases.append({"dest": enc(d), "src": enc(s), "strict": strict, "planted": ["duplicates-in-source", "", 0, "prop"]})
     return cases
